@@ -68,8 +68,8 @@ theorem keysDisjoint_of_nodes_sub {s s' : State} (hd : KeysDisjoint s)
   fun i j n m hn hm => hd i j n m (hsub i n hn) (hsub j m hm)
 
 theorem keysDisjoint_regNode (ord : Order) (s : State) (t : Key) (sn : SignedNode) (h : Inv s)
-    (hd : KeysDisjoint s) (hc : NoIdClash s (.regNode t sn)) : KeysDisjoint (regNode ord s t sn).1 := by
-  rcases regNode_nodes ord s t sn with e | ⟨hchk, e⟩
+    (hd : KeysDisjoint s) (hc : NoIdClash s (.regNode t sn)) : KeysDisjoint (regNode false ord s t sn).1 := by
+  rcases regNode_nodes false ord s t sn with e | ⟨hchk, e⟩
   · exact keysDisjoint_of_nodes_sub hd (fun i n hn => by rw [e] at hn; exact hn)
   · have ha := accepted_of_nodeChecks h.toIndexInv hchk
     obtain ⟨hc1, hc2⟩ := hc
@@ -118,7 +118,7 @@ theorem keysDisjoint_step (ord : Order) (s : State) (op : Op) (h : Inv s) (hd : 
   | regEntity t se =>
     refine keysDisjoint_of_nodes_sub hd (fun i n hn => ?_)
     simp only [step] at hn
-    rcases regEntity_spec s t se with e | ⟨_, _, e⟩ <;> rw [e] at hn <;> exact hn
+    rcases regEntity_spec false s t se with e | ⟨_, _, _, e⟩ <;> rw [e] at hn <;> exact hn
   | deregEntity t =>
     refine keysDisjoint_of_nodes_sub hd (fun i n hn => ?_)
     simp only [step] at hn
@@ -127,7 +127,16 @@ theorem keysDisjoint_step (ord : Order) (s : State) (op : Op) (h : Inv s) (hd : 
   | regRuntime c rt =>
     refine keysDisjoint_of_nodes_sub hd (fun i n hn => ?_)
     simp only [step] at hn
-    rcases regRuntime_spec s c rt with e | ⟨_, _, _, _, e⟩ <;> rw [e] at hn <;> exact hn
+    rcases regRuntime_spec false s c rt with e | ⟨_, _, ⟨_, e⟩ | ⟨_, _, _, e⟩⟩ <;> rw [e] at hn <;> exact hn
+  | unfreeze t id =>
+    refine keysDisjoint_of_nodes_sub hd (fun i n hn => ?_)
+    simp only [step] at hn
+    rcases unfreezeNode_spec s t id with e | ⟨_, _, _, _, _, _, e⟩ <;> rw [e] at hn <;> exact hn
+  | freeze id u =>
+    refine keysDisjoint_of_nodes_sub hd (fun i n hn => ?_)
+    simp only [step] at hn
+    rcases freezeNode_spec s id u with e | ⟨_, _, e⟩ <;> rw [e] at hn <;> exact hn
+  | setBalance a v => exact keysDisjoint_of_nodes_sub hd (fun i n hn => hn)
   | epoch e =>
     refine keysDisjoint_of_nodes_sub hd (fun i n hn => ?_)
     simp only [step] at hn
